@@ -52,6 +52,17 @@ impl<K, V> Cache<K, V> {
     }
 }
 
+#[cfg(feature = "verif-hooks")]
+impl<K, V> Cache<K, V> {
+    /// Occupied slots as `(slot, key, value)`.
+    pub fn entries(&self) -> impl Iterator<Item = (usize, &K, &V)> {
+        self.data
+            .iter()
+            .enumerate()
+            .filter_map(|(i, e)| e.as_ref().map(|e| (i, &e.key, &e.value)))
+    }
+}
+
 impl<K, V> Cache<K, V>
 where
     K: MyHash,
